@@ -906,11 +906,14 @@ def _inline_helpers(fn, helpers: Dict[str, ast.AST], in_class: bool):
         if budget[0] <= 0:
             return None
         f_ = call.func
+        h_ = None
         if isinstance(f_, ast.Name) and f_.id in helpers and not in_class_only.get(f_.id):
-            return helpers[f_.id]
-        if isinstance(f_, ast.Attribute) and isinstance(f_.value, ast.Name) and f_.value.id in ("self", "cls") and f_.attr in helpers and in_class_only.get(f_.attr):
-            return helpers[f_.attr]
-        return None
+            h_ = helpers[f_.id]
+        elif isinstance(f_, ast.Attribute) and isinstance(f_.value, ast.Name) and f_.value.id in ("self", "cls") and f_.attr in helpers and in_class_only.get(f_.attr):
+            h_ = helpers[f_.attr]
+        if h_ is not None and [d for d in getattr(h_, "decorator_list", []) if not (isinstance(d, ast.Name) and d.id in ("staticmethod", "classmethod"))]:
+            return None   # a decorated helper is not its body (a cache, a wrapper): its calls stay calls
+        return h_
 
     in_class_only = {k: bool(getattr(v, "_is_method", False)) for k, v in helpers.items()}
     # helpers that can reach themselves are never inlined, and the total number of inlinings is bounded
